@@ -77,8 +77,40 @@ static void arrays() {
 }
 #endif
 
-int main() {
+// Defaults that depend on the environment (ilu_solve / gauss_seidel: serial = omp_get_max_threads() < 4):
+// after the thread count has changed IN THIS PROCESS, importing a tree that does not set such a member
+// must give what the default constructor gives NOW (family "env:<threads>"; members are read back and
+// exported relative to a freshly default-constructed structure).
+#include <omp.h>
+template <class T> static void env_case(const char *id, int nt) {
+    c14::options opt; c14::component< T > c(id, opt);           // c.dflt = T() at the current thread count
+    std::string fam = "env:" + std::to_string(nt);
+    { c14::plan p; c.run_tree(p, fam.c_str()); }
+    { c14::plan p; for (auto &s : c.slots) if (s.ncodes >= 1 && s.name != "serial") p.set(s.path, s.name, 1); c.run_tree(p, fam.c_str()); }
+}
+static void env_history(const std::vector<int> &threads) {
+    for (int nt : threads) {
+        omp_set_num_threads(nt);
+#define C14_ENV(ID, T) env_case< T >(ID, nt);
+#if defined(C14_ONLY_ID)
+        C14_ENV(C14_ONLY_ID, c14g::C14_ONLY_TYPE)
+#elif defined(C14_PART_SERIAL)
+        C14_COMPONENTS_SERIAL(C14_ENV)
+#elif defined(C14_PART_MPI)
+        C14_COMPONENTS_MPI(C14_ENV)
+#endif
+    }
+}
+
+int main(int argc, char **argv) {
     vr::install_terminate();
+    if (argc > 1 && std::string(argv[1]) == "env") {
+        // started with OMP_NUM_THREADS >= 4: first imports at the initial count, then cross 4 downwards and back
+        int n0 = omp_get_max_threads();
+        env_history({n0, 2, n0, 3});
+        vr::emit("{\"e\":\"End\"}");
+        return 0;
+    }
     vr::rng g(vr::env_seed() * 7919 + 14);
     c14::options opt; opt.random_trees = vr::thorough() ? 160 : 20;
 #define C14_RUN(ID, T) { c14::component< T > c(ID, opt); c.run(g); }
@@ -90,6 +122,8 @@ int main() {
 #elif defined(C14_PART_MPI)
     C14_COMPONENTS_MPI(C14_RUN)
 #endif
+    // the run above imported at the initial thread count (1 under the driver): cross 4 upwards and back
+    env_history({8, 1, 5, 2});
     vr::emit("{\"e\":\"End\"}");
     return 0;
 }
